@@ -92,6 +92,13 @@ class Cluster:
         self._wait_port(self.fport)
         self.wait_forwarding()
 
+    def start_extra(self, name="extra"):
+        """a third, stand-alone node (leader of nothing) on base+3"""
+        os.makedirs(os.path.join(self.dir, name), exist_ok=True)
+        self._spawn(name, self.node_cmd(self.base + 3, name))
+        self._wait_port(self.base + 3)
+        return self.base + 3
+
     def wait_forwarding(self, secs=12.0):
         """until a LOCK sent to the follower is answered by the leader, and a hold of the leader shows up on the follower"""
         t0 = time.time()
